@@ -61,7 +61,7 @@ def differs(u, v):
     return np.linalg.norm(u[:3] - v[:3]) > TOL * scale_p or np.linalg.norm(u[3:] - v[3:]) > TOL * scale_v
 
 
-def run_behaviour(acts, baseline, tag):
+def run_behaviour(acts, baseline, tag, short=None):
     frames = {n: fr.get_frame(n) for n in ORIENT}
     ids = list(ORIENT)  # frame id k (1-based) -> name
     memo = dict(baseline)
@@ -89,7 +89,8 @@ def run_behaviour(acts, baseline, tag):
         if act["op"] == "observe":
             check_obs(step)
             continue
-        name = f"{tag}n{len(ids) + 1}"
+        # frame names are user input: long unique names, or one-character names (every behaviour runs in its own process)
+        name = f"{tag}n{len(ids) + 1}" if short is None else short[len(ids) - len(ORIENT)]
         if act["op"] == "station":
             f = create_station(name, STATIONS[nst % len(STATIONS)], parent_frame=frames[ids[act["parent"] - 1]])
             nst += 1
@@ -119,8 +120,14 @@ def main(inp, outp):
         pid = os.fork()
         if pid == 0:
             os.close(r)
+            short = [None, "TCe", "EMI", "o2R"][i % 4]
             try:
-                res = run_behaviour(acts, baseline, f"b{i}")
+                res = run_behaviour(acts, baseline, f"b{i}", short)
+            except (ValueError, KeyError, AttributeError, RuntimeError) as e:
+                # creating a frame / expressing the reference orbit in an existing frame must work for every history
+                res = {"violations": [{"key": "registry/creation-raises",
+                                       "what": f"{type(e).__name__}: {e} during behaviour {acts} (frame names {short or 'long'})",
+                                       "data": {"acts": acts, "short_names": short}}], "conversions": 0}
             except Exception as e:
                 import traceback
                 res = {"crash": traceback.format_exc(), "violations": [], "conversions": 0}
